@@ -36,11 +36,14 @@ PROFILES: List[Tuple[str, float, Dict[str, Any]]] = [
     ('zope',      1, dict(reexport=0.3, zope=1.0, roots=(1, 2))),
     ('docassign', 1, dict(reexport=0.3, docassign=0.7, roots=(1, 2))),
     ('dups',      1, dict(reexport=0.4, dup=0.5, roots=(1, 2))),
+    ('attrs',     3, dict(reexport=0.4, attr_pool=0.9, method_pool=True, defs=(2, 4), roots=(1, 2), nested=0.0, star=0.05)),
 ]
 
 
 def pick_profile(rng: Rng) -> Tuple[str, Dict[str, Any]]:
+    import os
     name = rng.weighted([(n, w) for n, w, _ in PROFILES])
+    name = os.environ.get('VERIF_PROFILE') or name      # triage aid
     for n, _, over in PROFILES:
         if n == name:
             return n, W.profile(**over)
@@ -49,7 +52,7 @@ def pick_profile(rng: Rng) -> Tuple[str, Dict[str, Any]]:
 
 def plan(tier: str, seed: int) -> Dict[str, Any]:
     import os
-    n = int(os.environ.get('VERIF_TASKS') or 0) or (1200 if tier == 'quick' else 40000)
+    n = int(os.environ.get('VERIF_TASKS') or 0) or (1800 if tier == 'quick' else 40000)
     tasks = [{'i': i, 'seed': derive(seed, PROPERTY, i), 'limit': 720 if tier == 'thorough' else 120,
               'nsample': 24 if tier == 'thorough' else 10} for i in range(n)]
     return {'tasks': tasks, 'budget_s': 75 if tier == 'quick' else 1500, 'task_timeout': 120, 'selfcheck': 6}
@@ -85,6 +88,7 @@ def project(d: Dict[str, Dict[str, Any]], roots: Set[str]) -> Dict[str, Dict[str
             # statement speaks of resolved bases and linearisations
             r['mro'] = [x for x in r['mro'] if not (x.startswith('ext:') and x[4:].split('.')[0] in roots)]
         r.pop('rawbases', None)
+        # 'parent' stays: it is identity, not location
         out[i] = r
     return out
 
@@ -130,8 +134,15 @@ def compare(world: Dict[str, Any], ref: Dict[str, Any], other: Dict[str, Any],
                 diffs.append(('mro', i, a['mro'], b['mro']))
         if cyclic:
             continue
+        # the kind of a member (instance vs class variable, inherited docstring ...) follows from the linearisation of its
+        # class: when that class already differs in bases/mro the member difference is a consequence, not a root cause
+        par = a.get('parent')
+        par_differs = par is not None and par == b.get('parent') and par in ref and par in other and \
+            (ref[par].get('bases') != other[par].get('bases') or ref[par].get('mro') != other[par].get('mro'))
         for attr in ('type', 'kind', 'docstring'):
             if a.get(attr) != b.get(attr):
+                if attr == 'kind' and par_differs:
+                    continue
                 diffs.append((attr, i, a.get(attr), b.get(attr)))
         if a['location'] != b['location']:
             # compared only for objects re-exported by at most one module
